@@ -345,6 +345,37 @@ class Tape(object):
         return bytes(self.r.getrandbits(8) for _ in range(n))
 
 
+# Primes p = 3 g + 1, q = 4 g + 1 of 512 bits (authoring-time search with Python integers, 30 Miller-Rabin rounds) that satisfy every condition
+# RSA.generate(1024) puts on its candidates (size, p, q > sqrt(2) 2^511, |p - q| > 2^412, gcd(e, p-1) = gcd(e, q-1) = 1 for e = 65537) and for which
+# d = e^-1 mod lcm(p-1, q-1) = e^-1 mod 12 g is SMALLER than 2^512: FIPS 186-4 B.3.1 (3) wants 2^(nlen/2) < d and new primes otherwise
+RSA_SMALLD = (0xbc7c3bfdb4e9b59eeec224697d8efd0d41532aeb20876415336ae293694b8510e96a9be60a42a89e8a9c2c0728ba48090c385173c03bb8cecc407879e6ff6bad,
+              0xfb504ffcf1379cd3e902db375213fc11ac6ee3e42b5f301c448e836f370f5c168c8e2532b858e0d3637ae55ee0f8600c104b1745004fa113bb00a0a289548f91)
+
+
+class ScriptedTape(Tape):
+    """randfunc whose entropy makes generate_probable_prime() draw chosen candidates: a request made by Integer.random() on behalf of
+    generate_probable_prime() itself is served from the octets of the next scripted number; every other request (Miller-Rabin bases, further
+    candidates once the script is used up) is served by the ordinary tape"""
+
+    def __init__(self, tag, numbers, nbytes):
+        Tape.__init__(self, tag)
+        self.queue = [v.to_bytes(nbytes, "big") for v in numbers]
+        self.pending = b""
+
+    def __call__(self, n):
+        names, f = [], sys._getframe(1)
+        while f is not None and len(names) < 3:
+            names.append(f.f_code.co_name)
+            f = f.f_back
+        if "generate_probable_prime" in names and "random_range" not in names and (self.pending or self.queue):
+            if not self.pending:
+                self.pending = self.queue.pop(0)
+            out, self.pending = self.pending[:n], self.pending[n:]
+            self.used += n
+            return out
+        return Tape.__call__(self, n)
+
+
 def rsa_derive(p, q, e):
     lcm = (p - 1) * (q - 1) // math.gcd(p - 1, q - 1)
     d = pow(e, -1, lcm)
@@ -1303,9 +1334,13 @@ CASE_FUNCS = {"rsa": rsa_case, "dsa": dsa_case, "elgamal": eg_case, "ws": ws_cas
 def gen_rsa(item, deep):
     bits, e = item["bits"], item.get("e", 65537)
     tape = Tape("gen-rsa/%s" % item["cid"])
+    if item.get("tape") == "small-d":               # entropy under which the first two candidates are RSA_SMALLD
+        bits, e = 1024, 65537
+        tape = ScriptedTape("gen-rsa/%s" % item["cid"], RSA_SMALLD, 64)
     key, exc = attempt(lambda: RSA.generate(bits, randfunc=tape, e=e), seconds=300)
     rec, kw = rsa_key_record(key, deep)
     return {"fam": "gen", "what": "rsa", "api": "generate", "bits": bits, "e": sn(e), "deep": bool(deep), "exc": exc, "key": rec, "kw": kw, "tape": tape.used,
+            "entropy": item.get("tape", "pseudo-random tape"),
             "cost": 50 + (max(bits, 64) // 64) ** 2 // 2 + (int(bits * (bits // 48) ** 2 / 40) if deep and key is not None else 0)}
 
 
